@@ -563,6 +563,10 @@ def make_namespace() -> dict[str, object]:
         '__fpy_attribute': _eval_attribute,
         '__fpy_ordered': _eval_ordered,
         '__fpy_to_value': to_value,
+        # builtins the generated code calls: reserved names, so that a program
+        # variable called `list` or `zip` does not shadow them
+        '__fpy_list': list,
+        '__fpy_zip': zip,
         REAL_NAME: REAL,
     }
 
@@ -817,12 +821,12 @@ class BytecodeCompiler(Visitor):
                 return pyast.Call(func=func, args=args, keywords=[], **attrs)
             case Zip():
                 # first zip the arguments with `strict=True` to ensure they have the same length
-                func = pyast.Name(id='zip', ctx=pyast.Load(), **attrs)
+                func = pyast.Name(id='__fpy_zip', ctx=pyast.Load(), **attrs)
                 kwarg = pyast.keyword(arg='strict', value=pyast.Constant(value=True, kind=None, **attrs), **attrs)
                 call = pyast.Call(func=func, args=args, keywords=[kwarg], **attrs)
 
                 # then, greedily force the zip object into a list
-                func = pyast.Name(id='list', ctx=pyast.Load(), **attrs)
+                func = pyast.Name(id='__fpy_list', ctx=pyast.Load(), **attrs)
                 return pyast.Call(func=func, args=[call], keywords=[], **attrs)
             case _:
                 raise NotImplementedError(f'unsupported n-ary operation: {type(e).__name__}')
